@@ -472,11 +472,6 @@ fn c03_sequence(ctx: &mut Ctx, r: &mut Rng, outcomes: &[bool], ep_fixed: Option<
             match tt {
                 "Duration" => Val::Dur(std::time::Duration::new(u64::MAX, 0)),
                 "Vec<Duration>" => Val::VDur(vec![std::time::Duration::new(1, 0), std::time::Duration::new(u64::MAX, 5)]),
-                "Vec<u64>" => Val::VU64(vec![]),
-                "Vec<f64>" => Val::VF64(vec![]),
-                "user:PackedSigned" => Val::User(cadence::ext::MetricValue::PackedSigned(vec![])),
-                "user:PackedUnsigned" => Val::User(cadence::ext::MetricValue::PackedUnsigned(vec![])),
-                "user:PackedFloat" => Val::User(cadence::ext::MetricValue::PackedFloat(vec![])),
                 t if t.starts_with("user:") => Val::UserErr,
                 _ => gen_val(r, kind, tt, true, true),
             }
